@@ -113,7 +113,7 @@ pub fn run(ctx: &mut Ctx) {
     }
     ctx.run_cases("pow10", &big, judge);
 
-    let n = ctx.tier.pick(3000, 60000);
+    let n = ctx.tier.pick(30_000, 300_000);
     ctx.run_prop(
         "random",
         n,
